@@ -85,12 +85,9 @@ Definition cross_summary (dbg : bool) (root : ainv) (dirs : list (N * ainv)) : l
   (cross_sites dbg root dirs [],
    match cross_check dbg root dirs with XOk n => n | XPanic s => 1000 + site_n s | XFuel => 2000 end).
 
-(** ** classifier front-ends for arbitrary mutants *)
+(** ** classifier front-ends for arbitrary mutants (the classes blank-id, version-gap and
+    wide-padding were repaired in /repo: no front-end, a failure there is a violation) *)
 
-Definition known_gap (keys : list bytes) : bool := c17_version_gap (keys_nums keys).
-Definition known_gap_nums (nums : list N) : bool := c17_version_gap nums.
-Definition known_wide (n w : N) : bool := c17_wide_padding (mkV n w).
-Definition known_blank_id (id : bytes) : bool := c17_blank_id id.
 Definition known_quadratic (slashes len : N) : bool := c17_quadratic_path slashes len.
 (** manifest given by the lengths of its arrays *)
 Definition known_empty_entry (lens : list N) : bool :=
